@@ -387,6 +387,11 @@ impl Stargate for FaultyStargate {
                 return Err(anyhow!("injected fault: token factory {} failed", msg.type_url));
             }
         }
+        // the mock burns the configured fee with a bank message, which fails for an empty fee
+        // list; a chain with no denom creation fee simply charges nothing
+        if tf_kind(&msg.type_url) == Some(CallKind::TfCreateDenom) && self.inner.fees.is_empty() {
+            return Ok(AppResponse::default());
+        }
         self.inner.execute_any(api, storage, router, block, sender, msg)
     }
 
